@@ -5,7 +5,7 @@
 From Coq Require Import List NArith ZArith Arith Lia.
 From YVGen Require Consts.
 From YV Require Import SideCond Heap HeapTablesRef Collect CollectProofs Pacing PacingProofs PacingRun
-  PacingRunProofs Roots RootsProofs RangeCache RangeCacheProofs.
+  PacingRunProofs Roots RootsProofs RangeCache RangeCacheProofs PacingRule PacingRuleProofs.
 Import ListNotations.
 
 Definition INIT : N := YVGen.Consts.HEAP_INIT_BYTES_MAX.
@@ -124,6 +124,44 @@ Print Assumptions C16_range_cache_bounded.
 Print Assumptions C16_range_cache_hit_identity.
 Print Assumptions C16_range_cache_ids_distinct.
 Print Assumptions C16_range_cache_no_panic.
+
+(* --- round 7: the threshold update as a parameter.  ANY rule bounded by max(INIT, GROWTH * survivors) keeps the
+   bound; the source's rule is one (and the parametrised step with it is Pacing.alloc_paced); the rules of the seeded
+   changes (ratchet, damping) and the averaging sibling coincide with it while the survivors do not shrink and are
+   refuted by a grow-then-drop history: the input class of the live-set profile programs --- *)
+Theorem C16_pacing_bound_any_rule : forall f : rule, rule_ok INIT GROWTH f -> forall hist,
+  Forall (fun r => within_bound INIT GROWTH r = true) (run_hist (alloc_paced_rule f) hist (p_init INIT) 0%N).
+Proof. exact (pacing_bound_rule INIT GROWTH C16_side_growth). Qed.
+Theorem C16_source_rule_ok : rule_ok INIT GROWTH (rule_exact GROWTH) /\
+  forall freed size s, alloc_paced_rule (rule_exact GROWTH) freed size s = alloc_paced GROWTH freed size s.
+Proof. exact (conj (rule_exact_ok INIT GROWTH C16_side_growth) (alloc_paced_rule_exact GROWTH)). Qed.
+Theorem C16_floor_rule_ok : rule_ok INIT GROWTH (rule_floor INIT GROWTH).
+Proof. exact (rule_floor_ok INIT GROWTH C16_side_growth). Qed.
+Theorem C16_damped_rule_steady_eq : forall s t, (t / GROWTH <= s * GROWTH)%N -> rule_damped GROWTH s t = rule_exact GROWTH s t.
+Proof. exact (damped_eq_exact_when_not_halved GROWTH C16_side_growth). Qed.
+Theorem C16_ratchet_rule_steady_eq : forall s t, (t <= s * GROWTH)%N -> rule_ratchet GROWTH s t = rule_exact GROWTH s t.
+Proof. exact (ratchet_eq_exact_when_grown GROWTH C16_side_growth). Qed.
+Theorem C16_pacing_bound_damped_refuted :
+  all_within INIT GROWTH (grow_then_drop INIT (rule_damped GROWTH) (N.to_nat 4096) (N.to_nat 6000) 48) = false.
+Proof. exact pacing_bound_damped_refuted. Qed.
+Theorem C16_pacing_bound_ratchet_refuted :
+  all_within INIT GROWTH (grow_then_drop INIT (rule_ratchet GROWTH) (N.to_nat 4096) (N.to_nat 6000) 48) = false.
+Proof. exact pacing_bound_ratchet_refuted. Qed.
+Theorem C16_pacing_bound_average_refuted :
+  all_within INIT GROWTH (grow_then_drop INIT (rule_average GROWTH) (N.to_nat 4096) (N.to_nat 6000) 48) = false.
+Proof. exact pacing_bound_average_refuted. Qed.
+Theorem C16_source_rule_survives_grow_then_drop :
+  all_within INIT GROWTH (grow_then_drop INIT (rule_exact GROWTH) (N.to_nat 4096) (N.to_nat 6000) 48) = true.
+Proof. exact exact_rule_survives_grow_then_drop. Qed.
+Print Assumptions C16_pacing_bound_any_rule.
+Print Assumptions C16_source_rule_ok.
+Print Assumptions C16_floor_rule_ok.
+Print Assumptions C16_damped_rule_steady_eq.
+Print Assumptions C16_ratchet_rule_steady_eq.
+Print Assumptions C16_pacing_bound_damped_refuted.
+Print Assumptions C16_pacing_bound_ratchet_refuted.
+Print Assumptions C16_pacing_bound_average_refuted.
+Print Assumptions C16_source_rule_survives_grow_then_drop.
 
 (* ======================================================================================================== *)
 (* R2G block (added; see notes/R2G.md): the accounting lines of Heap::collect, Heap::collect_if_required and the
